@@ -64,6 +64,29 @@ def gen(ctx):
             rows = [oq.elevate(r) for r in rows]
         if all(F(float(v)) == v for r in rows for v in r):
             out.append({"rows": rows, "kind": "grid-loop", "a": (1 - F(k, 8)) / 2, "b": (1 + F(k, 8)) / 2})
+    # the same loops re-parametrised (exact specialization to a dyadic interval [al, be]) so that ONE of the two crossing
+    # parameters is exactly the split point 1/2 (or 1/4, 3/4: a split point of the second level): the crossing is then found by
+    # the left-right intersection AND inside a half, and must still be reported exactly once (finding F19, repaired)
+    for _ in range(8 if ctx.quick() else 150):
+        k = rng.randint(2, 7)
+        c = F(rng.choice([32, 64, 96, 128]))
+        xs = [F(-192 + 3 * k * k), F(192 + k * k), F(-192 - k * k), F(192 - 3 * k * k)]
+        ys = [F(0), c, c, F(0)]
+        rows = [[v / 64 for v in xs], [v / 64 for v in ys]]
+        s1, s2 = (1 - F(k, 8)) / 2, (1 + F(k, 8)) / 2
+        w = rng.choice([F(2), F(3, 2), F(5, 4), F(3)])
+        target = rng.choice([F(1, 2), F(1, 2), F(1, 4), F(3, 4)])
+        which = rng.choice([0, 1])
+        al = (s1, s2)[which] - target * w
+        be = al + w
+        u1, u2 = (s1 - al) / w, (s2 - al) / w
+        if not (0 < u1 < u2 < 1):
+            continue
+        rows = [oq.specialize(r, al, be) for r in rows]
+        for _e in range(rng.randint(0, 1)):
+            rows = [oq.elevate(r) for r in rows]
+        if all(F(float(v)) == v for r in rows for v in r):
+            out.append({"rows": rows, "kind": "split-loop", "a": u1, "b": u2})
     for _ in range(8 if ctx.quick() else 200):
         n = rng.randint(2, 6)
         rows = [[F(rng.randint(-8, 8), 2) for _ in range(n + 1)] for _ in range(2)]
@@ -108,6 +131,10 @@ def judge(c, op, cfg, raw):
             cr = da[0] * db[1] - da[1] * db[0]
             if cr * cr * 2 ** 10 >= (da[0] ** 2 + da[1] ** 2) * (db[0] ** 2 + db[1] ** 2):
                 return "planted transversal self-crossing B(%s) = B(%s) not reported (got %s)" % (c["a"], c["b"], [tuple(map(float, p)) for p in pairs])
+    if c["kind"] == "split-loop":
+        if len(pairs) != 1 or abs(pairs[0][0] - c["a"]) > F(1, 2 ** 30) or abs(pairs[0][1] - c["b"]) > F(1, 2 ** 30):
+            return "cubic loop crossing itself exactly once, at (%s, %s) with a parameter on a split point: got %s" % (
+                c["a"], c["b"], [tuple(map(float, p)) for p in pairs])
     if c["kind"] == "grid-loop":
         if len(pairs) != 1 or abs(pairs[0][0] - c["a"]) > F(1, 2 ** 30) or abs(pairs[0][1] - c["b"]) > F(1, 2 ** 30):
             return "symmetric cubic loop crossing itself exactly once at (%s, %s): got %s" % (c["a"], c["b"], [tuple(map(float, p)) for p in pairs])
